@@ -109,10 +109,10 @@ func (l layout) blocks(i int) [][2]int {
 
 func genLayout(r *Rng) layout {
 	var l layout
-	if r.Chance(70) {
+	if r.Chance(60) {
 		l.pl = r.Pick(4, 8, 16, 32, 64)
 	} else {
-		l.pl = r.Pick(16384, 32768, 16384+4096, 49152)
+		l.pl = r.Pick(16384, 32768, 16384+4096, 49152, 65536)
 	}
 	nf := r.Range(1, 4)
 	for i := 0; i < nf; i++ {
@@ -300,6 +300,18 @@ func genLoopDL(r *Rng, idx int, tier string, step func(op string) string) {
 		if !p.unchoked && r.Chance(60) {
 			absorb(peers, step(fmt.Sprintf("msg p=%d t=unchoke", p.k)))
 			p.unchoked = true
+			continue
+		}
+		if p.unchoked && len(p.pending) > 0 && r.Chance(7) {
+			// a choke while answers are still in flight: they keep arriving (a peer without the fast extension
+			// does not take back what it has already queued), then the peer unchokes again
+			absorb(peers, step(fmt.Sprintf("msg p=%d t=choke", p.k)))
+			inflight := p.pending
+			p.pending = nil
+			for _, q := range inflight {
+				absorb(peers, step(fmt.Sprintf("msg p=%d t=piece i=%d b=%d l=%d data=true", p.k, q[0], q[1], q[2])))
+			}
+			absorb(peers, step(fmt.Sprintf("msg p=%d t=unchoke", p.k)))
 			continue
 		}
 		if p.kind == "flaky" && r.Chance(25) {
